@@ -125,7 +125,7 @@ def main(tier):
     of = os.path.join(d, 'topo.json')
     rc, out = V.run(['timeout', '1500', ht, 'run', sf, of], timeout=1600)
     if rc != 0:
-        raise V.Broken('h_topo failed rc=%d: %s' % (rc, out[-1000:]))
+        V.harness_exit('h_topo', rc, out)
     data = json.load(open(of))
     r = V.tlc(TT, os.path.join(V.SPEC, 'topology', 'Topology.cfg'), env={'TOPORECS': of}, timeout=3000, cont=True, mem='16g')
     ev.add_tlc('Topology: %d runs, %d recorded states' % (len(data['recs']), sum(len(x['states']) for x in data['recs'])), r)
